@@ -1,12 +1,13 @@
 #!/bin/bash
-# usage: try_mutant.sh <patch.diff> <tier> <pid>...   — apply to /repo, run the checks, ALWAYS restore
+# usage: try_mutant.sh <patch.diff> <tier> <pid>...   — apply to /repo, run the checks, ALWAYS restore.
+# One trial at a time (lock); evidence written while a change is applied is never kept: the committed evidence is restored.
 patch=$1; tier=$2; shift 2
+exec 9>/tmp/try_mutant.lock
+flock 9
 cd /repo || exit 9
 if [ -n "$(git status --porcelain)" ]; then echo "/repo not clean"; exit 9; fi
 git apply "$patch" || { echo "patch does not apply"; exit 9; }
-# evidence written while a change is applied must never be committed: keep the clean-tree evidence aside
-rm -rf /tmp/evidence_clean && cp -r /verif/evidence /tmp/evidence_clean
-trap 'git -C /repo checkout -- . ; (cd /verif && python3 harness/translate.py >/dev/null 2>&1); rm -rf /verif/evidence && mv /tmp/evidence_clean /verif/evidence' EXIT
+trap 'git -C /repo checkout -- . ; (cd /verif && python3 harness/translate.py >/dev/null 2>&1; git checkout -q -- evidence/)' EXIT
 cd /verif
 for pid in "$@"; do
   start=$(date +%s)
